@@ -45,6 +45,9 @@ def _tracked_docs():
     return {
         'accidentals': Doc([[H('**kern')], [Note('4', pitch='c', acc='#')], [Note('4', pitch='e', acc='-')], [Note('4', pitch='g')], [Op(T)]]),
         'chords': Doc([[H('**kern')], [Chord((Note('4', pitch='c'), Note('4', pitch='e')))], [Note('4', pitch='g')], [Op(T)]]),
+        'chords2': Doc([[H('**kern'), H('**kern')], [Note('4', pitch='d'), Note('4', pitch='b')], [Chord((Note('4', pitch='c'), Note('4', pitch='e'))), Rest('4')],
+                        [Note('4', pitch='g'), Note('2', pitch='A')], [Bar(number='2'), Bar(number='2')], [Note('8', pitch='f'), Chord((Note('8', pitch='a'), Note('8', pitch='cc')))],
+                        [Note('8', pitch='e'), Note('8', pitch='dd')], [Op(T), Op(T)]]),
         'source': Doc([[H('**kern')], [Note('4', pitch='c')], [Note('4', pitch='d')], [Op(T)]]),
     }
 
@@ -69,7 +72,7 @@ def _dir(up):
     return 'up' if up else 'down'
 
 
-def expected_transposed(D, iname, up):
+def expected_transposed(D, iname, up, transpose_chords=True):
     """(rows of the expected ekern export, spellable?)"""
     d, s = rp.interval_sizes(iname)
     ok = True
@@ -89,7 +92,7 @@ def expected_transposed(D, iname, up):
         return Note(n.dur, n.dots, n.mark, letters, sp_[len(letters):], '', n.decs, n.kind)
     rows = []
     for r in D.rows:
-        rows.append([tr_note(c) if isinstance(c, Note) else (Chord(tuple(tr_note(x) for x in c.notes)) if isinstance(c, Chord) else c) for c in r])
+        rows.append([tr_note(c) if isinstance(c, Note) else (Chord(tuple(tr_note(x) for x in c.notes)) if isinstance(c, Chord) and transpose_chords else c) for c in r])
     return Doc(rows), ok
 
 
@@ -173,7 +176,7 @@ def _d_body(k, j):
     return True
 
 
-CLASSES = ('core', 'accidentals', 'chords', 'source')
+CLASSES = ('core', 'accidentals', 'chords', 'source', 'chords2')
 
 
 def ob_b(cls: int, iv: int, up: bool) -> bool:
@@ -187,13 +190,15 @@ def _b_body(ci, iv, up):
     cname = CLASSES[ci]
     iname = INAMES[iv]
     ctx.known('KF-C15-accidentals-not-transposed', cname == 'accidentals')
-    ctx.known('KF-C15-chords-not-transposed', cname == 'chords')
+    # open finding 'chord notes are not transposed': while it is open the class is NOT excluded -- the chord cells are expected as in
+    # the source (the recorded defect), every other cell of the document as the property says (a single note below a chord included)
+    chords_as_source = cname in ('chords', 'chords2') and 'KF-C15-chords-not-transposed' in ctx.KF_ACTIVE
     ctx.known('KF-C15-source-rewritten', cname == 'source')
     D = TRACKED.get(cname, DOCS[2])
     text = D.text()
     doc, _ = kp.loads(text)
     before = kp.dumps(doc)
-    E, spellable = expected_transposed(D, iname, up)
+    E, spellable = expected_transposed(D, iname, up, transpose_chords=not chords_as_source)
     try:
         t = doc.to_transposed(iname, _dir(up))
     except Exception as e:
@@ -267,7 +272,7 @@ OBLIGATIONS = [
     Ob(id='C15.b', fn=ob_b, title='tracked classes: explicit accidentals, chord notes, source document after the call',
        shard_of=lambda cls, iv, up: iv, shards={'quick': 4, 'thorough': 4}, budget_s={'quick': 120, 'thorough': 600},
        witnesses=[{'cls': 0, 'iv': 5, 'up': True}], min_confirmed=60, enumerated='class, interval, direction',
-       bounds={'quick': '4 classes x 40 intervals x 2 directions', 'thorough': 'same'}),
+       bounds={'quick': '5 classes (two chord documents) x 40 intervals x 2 directions', 'thorough': 'same'}),
     Ob(id='C15.c', fn=ob_c, title='unknown interval names / directions raise ValueError',
        budget_s={'quick': 150, 'thorough': 600}, witnesses=[{'nsel': 0, 'dsel': 0}, {'nsel': 45, 'dsel': 0}], min_confirmed=100,
        enumerated='interval name from the 40 valid + 15 invalid spellings, direction from 6 spellings', bounds={'quick': '55 x 6', 'thorough': 'same'}),
